@@ -631,6 +631,7 @@ def run(chk: Check) -> None:
     d1m_own_entries(chk)
     d3b_retry_forwards_value(chk)
     d7_float_presentation(chk)
+    d7b_float_precision(chk)
     d8_type_ladders(chk)
     d9_rename_position(chk)
     d10_twin_arms(chk)
@@ -784,6 +785,58 @@ def d7_float_presentation(chk: Check) -> None:
                      "prec={} width={} makes ruamel print {!r}: the "
                      "document no longer holds the value that was set"
                      .format(vals["prec"].value, vals["width"].value, shown))
+
+
+#: floats whose shortest exact text needs an exponent or more than 15
+#: decimals
+FLOAT_SAMPLES_LONG = [1e-20, 1e-16, 0.30000000000000004, 1.0000000000000002]
+
+
+def d7b_float_precision(chk: Check) -> None:
+    """The same folding as C03-D7 over floats that a fixed-point text with
+    15 decimals cannot hold.  The node in memory keeps the exact value; the
+    text ruamel prints for it (from the hints) reads back as another number,
+    so "serializes to YAML which reloads to the same data" fails for them.
+    One finding for the whole class (the repair is an exponent form of the
+    hints, not a per-value tweak)."""
+    from sa.peval import Const, Kind, PEval
+    prog = chk.prog
+    chk.rule("C03-D7b", "floats that need an exponent or more than 15 "
+             "decimals are given hints that print a text reading back as "
+             "the same number", floor=1)
+    fi = prog.func("Nodes.make_float_node")
+    pv, pa = fi.params()[0], fi.params()[1]
+    pe = PEval()
+    pe.watch_calls = {"ScalarFloat"}
+    lost = []
+    for v in FLOAT_SAMPLES_LONG:
+        pe.specialise(fi.node.body, {pv: Const(v), pa: Kind("none")},
+                      pinned=[pv, pa])
+        if len(pe.calls) != 1:
+            raise AnalysisError("make_float_node({!r}): constructor call "
+                                "not decided".format(v))
+        _, _, kw = pe.calls[0]
+        if kw.get("exp") is not None or kw.get("e_width") is not None:
+            continue        # an exponent form: outside the model, accepted
+        vals = {k: kw.get(k) for k in ("m_sign", "prec", "width")}
+        if not all(isinstance(x, Const) for x in vals.values()):
+            raise AnalysisError("make_float_node({!r}): hints not decided"
+                                .format(v))
+        shown = _ruamel_float_text(v, vals["m_sign"].value,
+                                   vals["prec"].value, vals["width"].value)
+        try:
+            back = float(shown)
+        except ValueError:
+            back = None
+        if back != v:
+            lost.append("{!r} prints {!r}".format(v, shown))
+    text = "fixed-point hints for small / long floats"
+    if lost:
+        chk.fail("C03-D7b", fi, fi.node, text,
+                 "the hints make ruamel print a text that reads back as "
+                 "another number: {}".format("; ".join(lost)))
+    else:
+        chk.ok("C03-D7b", fi, fi.node, text, "all samples read back exactly")
 
 
 def d8_type_ladders(chk: Check) -> None:
